@@ -61,13 +61,16 @@ RULE = (
     'BaseException) before the k-th inner op, nested blocks caught inside or '
     'propagating through the outer block. Objects are addressed by index '
     'modulo the live population, so every op is applicable; each case starts '
-    'with a node, a buffer, a control bus and 1-4 further creations. Every op is compared with the reference model, every '
+    'with a node, a buffer, a control bus and 1-4 further creations. Every op '
+    'is compared with the reference model, every '
     'wire message validated against the command reference table, ids against '
     'the id model, allocators drained at the end. Non-trivial = the history '
     'has a bind block holding >= 2 commands, or a free_all over >= 2 live '
     'buffers, or a command with array/bus/buffer arguments. Distinct by sha1 '
     'of the canonical case JSON. completion stage: every Buffer method that '
-    'takes a completion message x every completion shape (enumerated).')
+    'takes a completion message x every completion shape (enumerated). '
+    'findings stage: the minimal histories of the known findings, outside and '
+    'inside a bind block.')
 
 ASSUMPTIONS = [
     'NRT: Server.default is marked as booted by NrtMain, no server process; '
@@ -302,18 +305,8 @@ def reset_world(case):
 
 # --- comparison helpers -------------------------------------------------------------
 
-def plain(m):
-    """osc_ref.Message -> [addr, args...] with completion blobs opened."""
-    return [m.address] + [plain_val(x) for x in m.args]
-
-
 def plain_val(x):
-    if isinstance(x, (bytes, bytearray)):
-        try:
-            pkt = osc_ref.decode_packet(bytes(x))
-        except osc_ref.OscError:
-            return {'blob': bytes(x).hex()}
-        return {'completion': [plain(mm) for _, mm in osc_ref.flatten(pkt)]}
+    """Array values (nested lists) of a decoded message as plain lists."""
     if isinstance(x, (list, tuple)):
         return [plain_val(y) for y in x]
     return x
@@ -495,9 +488,6 @@ class Run:
         self.freed = {'buffer': set(), 'control': set(), 'audio': set()}
         self.block_seq = 0
         self.nontrivial = False
-        self.bind_depth = 0
-        self.cmds_in_block = 0
-        self.stop = False
 
     # -- model queries ---------------------------------------------------------
 
@@ -1875,12 +1865,47 @@ def completion_cases(ctx):
                 k += 1
 
 
+def finding_cases(ctx):
+    """Smallest histories of the ledger's suspicions and of what the search
+    found, so that every run decides them whatever the seed."""
+    syn = ['synth', 'new', None, ['none'], 'addToHead']
+    buf = ['buf', 'new', 8, 1, True, None]
+    cases = [
+        [buf, buf, ['bfree_all', True]],
+        [['bufs', 3, 8, 1, True, None], ['bfree_all', False]],
+        [buf, ['bufs', 2, 8, 1, True, None], buf, ['bfree_all', True]],
+        [buf, buf, ['bfree', 1, None], ['bfree', 1, None]],
+        [buf, ['bfree', 0, 'zero'], ['bfree', 0, None], buf],
+        [syn, ['synth', 'new', ['dict', [['freq', ['l', [110, 220]]]]],
+               ['none'], 'addToHead']],
+        [syn, ['synth', 'tail', ['dict', [['freq', ['t', [110, 220]]]]],
+               ['node', 0], 'addToHead']],
+        [['bus', 'control', 2, True],
+         ['synth', 'grain', ['dict', [['freq', ['l', [['cmap', 0]]]]]],
+          ['server'], 'addToTail']],
+        [['bufs', 2, 8, 1, False, None]],
+        [['buf', 'new', 64, 1, True, None],
+         ['bop', 0, 'cue', '/tmp/c17.wav', 3, None]],
+    ]
+    k = 0
+    for ops in cases:
+        for inbind in (False, True):
+            if k % ctx.nshards == ctx.shard:
+                if inbind:
+                    yield {'ops': ops[:-1] + [['bind', [ops[-1]], None]],
+                           'tape': []}
+                else:
+                    yield {'ops': ops, 'tape': []}
+            k += 1
+
+
 def stages(ctx):
     return [
+        Stage('findings', run_history, cases=finding_cases),
         Stage('completion', run_history, cases=completion_cases,
               exhaustive=False),
         Stage('history', run_history, history_strategy(),
-              quick=1200, thorough=4000),
+              quick=3500, thorough=10000),
     ]
 
 
